@@ -88,6 +88,7 @@ func decodeDec3FromData(data []byte) (Box, error) {
 	b := Dec3Box{}
 	b.DataRate = uint16(br.Read(13))
 	nrSubs := br.Read(3) + 1 // There must be one base stream
+	b.NumIndSub = uint16(nrSubs - 1)
 	for i := 0; i < int(nrSubs); i++ {
 		es := EC3Sub{}
 		es.FSCod = byte(br.Read(2))
